@@ -459,6 +459,25 @@ def temperature_rules_for(ctx, prop, label):
     ctx.floor("convert_temperature cases interpreted", n, 10)
 
 
+def cache_reset_for(ctx, prop, label):
+    """the R-reset clause on behalf of another property: convert_pressure / convert_loading / convert_material interpreted on isotherms
+    that hold cached interpolators - whenever a conversion changed the stored numbers (also a unit-only one) both caches are gone afterwards.
+    Findings re-labelled <prop>.<label>; the other clauses of C02 found on the way are C02's to report."""
+    n = 0
+    for kind, shard in (("pressure", None), ("loading", (0, 6)), ("material", (0, 6))):
+        r = _shard_worker((str(ctx.root), "quick", kind, shard, True))
+        n += r[0]
+        mine = [f for f in r[3] if f[0] == "C02.R-reset"]
+        ctx.obligations += r[0]
+        ctx.evaluations += r[0]
+        ctx.discharged += r[0] - len(mine)
+        for (rule, where, key, message, detail) in mine:
+            ctx.add(Finding(f"{prop}.{label}", where, key, message + " - interpolated reads (loading_at / pressure_at) would keep answering with "
+                            "the numbers of the old representation", detail))
+    ctx._nontrivial.add(("c02-reset", prop))
+    ctx.floor("permanent conversions interpreted with cached interpolators", n, 60)
+
+
 def run(ctx: Ctx):
     thorough = ctx.tier == "thorough"
     load(ctx.root)      # anchors / parse errors surface here, in the parent
